@@ -6,6 +6,7 @@ import (
 	"flag"
 	"fmt"
 	"os"
+	"path/filepath"
 	"strconv"
 )
 
@@ -41,7 +42,8 @@ func main() {
 		}
 	}
 	if *out == "" {
-		*out = "/verif/run/" + id
+		exe, _ := os.Executable() // <verif>/run/bin/harness
+		*out = filepath.Join(filepath.Dir(filepath.Dir(exe)), id)
 	}
 	r := NewRun(id, *tier, seed, *out)
 	if *replay != "" {
